@@ -18,15 +18,43 @@ def load_check(pid: str):
     return importlib.import_module(f'kpverif.checks.{pid.lower()}')
 
 
+def _reach_on():
+    """Reach observer (sys.monitoring PY_START on the code objects of the classes the properties are anchored in): evidence of
+    which importer / exporter / document / tokenizer code the workload entered."""
+    try:
+        from .monitors import reach
+        import kernpy.core.importer as IM
+        import kernpy.core.exporter as EX
+        import kernpy.core.document as DO
+        import kernpy.core.tokenizers as TZ
+        import kernpy.core.generic as GE
+        reach.install([IM.Importer, EX.Exporter, DO.Document, DO.MultistageTree, GE.Generic, TZ.TokenizerFactory,
+                       TZ.KernTokenizer, TZ.EkernTokenizer, TZ.BkernTokenizer, TZ.BekernTokenizer, TZ.AKernTokenizer, TZ.AEKernTokenizer])
+        return reach
+    except Exception:
+        return None
+
+
+def _reach_off(ctx, reach):
+    if reach is not None:
+        try:
+            ctx.reach.update(reach.drain())
+            reach.uninstall()
+        except Exception:
+            pass
+
+
 def run_shard(pid, tier, seed, i, n, partial):
     mod = load_check(pid)
     ctx = Ctx(pid, tier, seed, shard=(i, n))
     assert_repo_import(ctx)
+    rc = _reach_on() if i == 0 else None
     try:
         mod.run(ctx)
     except Exception as e:  # harness failure inside a shard is inconclusive, never "held"
         import traceback
         ctx.inconc(f'shard {i}/{n} crashed: {type(e).__name__}: {e} :: {traceback.format_exc()[-800:]}')
+    _reach_off(ctx, rc)
     Path(partial).write_text(json.dumps(ctx.to_partial(), ensure_ascii=False, default=str), encoding='utf-8')
     return 0
 
@@ -62,11 +90,13 @@ def main(argv=None):
     ctx = Ctx(pid, tier, seed)
     assert_repo_import(ctx)
     if nshards <= 1:
+        rc = _reach_on()
         try:
             mod.run(ctx)
         except Exception as e:
             import traceback
             ctx.inconc(f'check crashed: {type(e).__name__}: {e} :: {traceback.format_exc()[-1200:]}')
+        _reach_off(ctx, rc)
         return ctx.finish()
 
     # sharded run: one subprocess per shard (never multiprocessing.Pool), generous wall-clock watchdog
